@@ -19,8 +19,8 @@ CHECKS = {
     "C05": (PDE_TECH + "; recorded deviation model for the f_v1 finding", "Exploration: rans_sa, free-shear and wall-bounded FANS-SA; full SA closure (f_v1 differentiated, modified S~, f_w, conservative diffusion, c_b2 term); free-shear 2-argument forms == 3-argument at t=0.", "2/C05", ""),
     "C06": (PDE_TECH + "; invariant monitor (species sources sum to d(rho u)/dx) and call-recording callbacks", "Exploration: reacting Euler with 6 user callbacks K_eq(T); kinetics written from concentrations; callback must be invoked exactly once at masa_eval_exact_t(x) (bitwise).", "2/C06", ""),
     "C07": (PDE_TECH + " and with an 8th-order finite difference of the API's own exact field; out-of-range indices", "Exploration: every gradient the 6 solutions provide, every direction, vs jet gradient (tight) and vs FD of masa_eval_exact_* (loose); 9 invalid indices incl. INT_MIN/INT_MAX must give -1 / NaN at every point.", "2/C07", ""),
-    "C09": ("runtime monitor: same workload as C01-C07 judged at the precision tolerance K u e (K=4) against the quad reference; double vs long double at identical inputs; finiteness of every value; -O0 and (thorough) -O2 builds",
-            "Exploration: all 31 PDE solutions, both precisions; a double temporary/literal in a long double path shows as ratio 5..2000 against K=4; observed maxima per evaluator recorded in the evidence.", "2/C09", ""),
+    "C09": ("runtime monitor: same workload as C01-C07 judged at the precision tolerance K u e (K=8) against the quad reference; double vs long double at identical inputs; finiteness of every value; -O0 and (thorough) -O2 builds",
+            "Exploration: all 31 PDE solutions, both precisions; a double temporary/literal in a long double path shows as ratio 5..2000 against K=8; observed maxima per evaluator recorded in the evidence.", "2/C09", ""),
     "C08": ("runtime monitor: exact Riemann solver / conjugate-normal closed forms in quad precision as reference, plus reference-free invariant monitors (jump conditions, isentropy, quadrature, proportionality) over parameter and data-vector histories",
             "Exploration: Sod for Gamma in (1.05,3) in all five regions with front-location probes; cp_normal with data vectors of length 1..50 re-set between evaluations, evaluators in random order, moments k=0..20.", "2/C08",
             "Sod's states are taken as the library documents them in sod.cpp (rho 1 / 0.125, p 1 / 0.125)."),
